@@ -8,7 +8,18 @@ mimetypes.init()
 
 ID = "C27"
 LEAN_TARGETS = ["TornadoModel.C27.Props"]
-THEOREMS = []
+THEOREMS = [
+    "TornadoModel.C27.plan_window",
+    "TornadoModel.C27.parse_end_nonneg",
+    "TornadoModel.C27.getContent_window",
+    "TornadoModel.C27.response_shape",
+    "TornadoModel.C27.respond_ne_500",
+    "TornadoModel.C27.head_same_headers",
+    "TornadoModel.C27.unparsed_range_ignored",
+    "TornadoModel.C27.intOrNone_digits",
+    "TornadoModel.C27.honoured_fields_digits",
+    "TornadoModel.C27.invalid_range_ignored_refuted",
+]
 TRUSTED = [
     "hashlib.sha512 (ETag), email.utils.parsedate_to_datetime / datetime comparison (If-Modified-Since), "
     "httputil.format_timestamp (Last-Modified) and mimetypes.guess_type are parameters of the model; the harness computes them with the same stdlib functions",
@@ -28,9 +39,11 @@ RULE = ("(file size, Range header, If-None-Match, If-Modified-Since) -> GET and 
 EXHAUSTIVE = {"quick": False, "thorough": True}
 CLAUSES = {
     "200 whole / 206 with Content-Range a-b/size and body = bytes a..b / 416 with */size / 304 without body, Content-Length = body length":
-        "response_shape (all sizes, headers) via plan_cases (all size/start/end)",
+        "response_shape (every file, every header text, GET/HEAD) via plan_window (all size/start/end, omega) + getContent_window + parse_end_nonneg",
     "HEAD yields the same status and headers with no body": "head_same_headers",
-    "a Range header that is not a syntactically valid single byte-range is ignored": "invalid_range_ignored (vs Spec.validRange) + parse_valid",
+    "a Range header that is not a syntactically valid single byte-range is ignored": "invalid_range_ignored_full is refuted by 'bytes=1' (known finding); proved core: unparsed_range_ignored + "
+        "honoured_fields_digits/intOrNone_digits (an honoured header has unit 'bytes' and ASCII-digit fields); "
+        "tie only: invalid_range_ignored_goal (vs the RFC grammar Spec.validRange, for headers with a '-') is applied as the oracle to every case",
 }
 PARALLEL = True
 CASE_TIMEOUT = 120
